@@ -16,7 +16,7 @@ Import ListNotations.
 Require Import Verif.Lib.Wire Verif.Lib.Text Verif.Lib.PathNorm Verif.Lib.Utf8 Verif.Lib.Percent Verif.Lib.C07Types
                Verif.Gen.Facts_C02 Verif.Gen.Facts_C07 Verif.Model.C02 Verif.Model.C07
                Verif.Proofs.C02_memo Verif.Proofs.C07_rt Verif.Proofs.C07 Verif.Proofs.C07_hist Verif.Proofs.C07_c17
-               Verif.Gen.Code_C07 Verif.Proofs.C07_gen Verif.Proofs.C07_elt Verif.Proofs.C07_elt2.
+               Verif.Gen.Code_C07 Verif.Proofs.C07_gen Verif.Proofs.C07_elt Verif.Proofs.C07_elt2 Verif.Proofs.C07_elt3.
 Require Verif.Proofs.C02_gen.
 Require Verif.Model.C17.
 
@@ -458,3 +458,24 @@ Theorem C07_spec_ext_sound_now : forall c e1 e2 i sv,
   nth_error (model_ext UrlTupleCompare c07_join_raw_key c e1 e2) i = Some sv.
 Proof. exact spec_ext_sound_now. Qed.
 Print Assumptions C07_spec_ext_sound_now.
+
+(* ------------------------------------------------------------------ third proof-only round (Proofs/C07_elt3.v) *)
+(* the URL form of generate-then-resolve for elements of any type: r inside the virtual root, the elements naming its
+   descendant r' (also inside): request.resource_url(r, *els) followed by "/" IS request.resource_url(r'), and requesting
+   that path under the same header traverses back to r' with an empty view name *)
+Theorem C07_typed_url_is_descendant_url : forall root r r' names els ts vroot vt v v' sn d host,
+  good_resource root r = Some names -> good_resource root r' = Some (names ++ ts) ->
+  elts_texts els = Some ts -> ts <> [] -> header_segments vroot = Some vt ->
+  inside root vt r = Some v -> inside root vt r' = Some v' -> decode_path_info sn = Ok d ->
+  xbind (resource_url_e UrlTupleCompare root r els vroot sn (Some host)) (fun u => Val (u ++ [slash]))
+    = resource_url UrlTupleCompare root r' [] vroot sn (Some host) /\
+  request_back UrlTupleCompare root r' vroot = Val (r', [], Some r').
+Proof. exact typed_url_is_descendant_url. Qed.
+Print Assumptions C07_typed_url_is_descendant_url.
+
+Theorem C07_virtual_path_extends : forall root r r' names ts vt v v',
+  good_resource root r = Some names -> ts <> [] ->
+  inside root vt r = Some v -> inside root vt r' = Some v' ->
+  spec_virtual_path root r names vt ++ join [slash] (map q ts) ++ [slash] = spec_virtual_path root r' (names ++ ts) vt.
+Proof. exact virtual_path_extends. Qed.
+Print Assumptions C07_virtual_path_extends.
